@@ -414,7 +414,7 @@ def main():
             "explanation": EXPLAIN.get(pid, "machine-checked theorems about the Gallina model (coq/Properties/%s.v) plus the checked "
                                             "correspondence between the extracted model and /repo's working tree" % pid),
             "extra_obligations": [{"what": e[0], "ok": e[1]} for e in extras],
-            "translated_arithmetic": getattr(plan, "arith", None), "miri": getattr(plan, "miri", None),
+            "translated_arithmetic": getattr(plan, "arith", None), "miri": getattr(plan, "miri", None), "api_surface": getattr(plan, "api", None),
             "checker_cmd": "make -C /verif/coq (coqc 8.16.1, full .vo build) && coqc Properties/%s.v with Print Assumptions; then ./check %s %s" % (pid, pid, tier),
             "trusted_base": ["Coq 8.16.1 kernel (no native_compute)", "extraction ExtrOcamlBasic + OCaml 4.13.1 driver",
                              "Rust harness + hooks (--cfg circular_buffer_verif)", "case generators tools/cases.py, tools/props.py",
